@@ -175,6 +175,30 @@ def run_history(cfg, ops, workdir, keep=False):
         for o in ops:
             if o.startswith("clock "):
                 clock = int(o.split()[1])
+            if o.startswith("restart-key "):
+                # restart with another encryption configuration (C19): the server must refuse to start
+                key = o.split()[1]
+                r = node.op("shutdown")
+                node.wait()
+                cfg2 = dict(cfg)
+                cfg2["enc"] = key
+                probe = Node(cfg2, workdir, clock)
+                trace.append(f"{o}\t{probe.ready or 'died'}")
+                if probe.ready.startswith("ready"):
+                    for pre in PREAMBLE:
+                        probe.op(pre)
+                    trace.append("wrong-key-dump\t" + probe.op("streams 0"))
+                    probe.op("shutdown")
+                probe.wait()
+                node = Node(cfg, workdir, clock)
+                if not node.ready.startswith("ready"):
+                    trace.append(f"restart\t{node.ready or 'died'}")
+                    return trace
+                pre_results = [(pre, node.op(pre)) for pre in PREAMBLE]
+                trace.append("restart\t" + node.op("cacheinfo"))
+                for pre, r in pre_results:
+                    trace.append(f"{pre}\t{r}")
+                continue
             if o == "restart":
                 r = node.op("shutdown")
                 node.wait()
